@@ -22,7 +22,7 @@ Not decided: that the SHA-256/HMAC crates compute those functions.
 """
 from . import core, flow, names, normal, summary
 from .framework import where, short, api_name
-from .common import AUTH, CLIENT, ceremony, find_aggs
+from .common import AUTH, CLIENT, ceremony, find_aggs, hmac_functions, param_roles
 from .c02 import has, is_call, find, sub, closure_ret
 from .c12 import chain_segments
 
@@ -68,9 +68,17 @@ def run(chk):
         good = flow.merge_const_segments(sc) == [("bytes", b"WebAuthn PRF\x00"), ("param", 1)]
         chk.ob("R1 salt", "R1|make_salt|layout", bool(ok and good), where(ms), "make_salt = %s" % (flow.term_str(v) if v else "?"))
     cv = fn(p, "extensions::prf::convert_eval_to_ctap")
+    # the converter of one whole `eval` record: when the function of that name takes something else (the record's members,
+    # say), the one private function that has the record-level signature is the anchor — its callees are part of its table
+    from . import roles as _roles
+    if cv is None or param_roles(cv, rec="AuthenticationExtensionsPrfValues")["rec"] is None:
+        alt = _roles.fits(p, "convert_eval_to_ctap")
+        cv = alt[0] if len(alt) == 1 else cv
     if chk.require("R1 salt", "R1|convert_eval_to_ctap", cv, "passkey_client::extensions::prf", "convert_eval_to_ctap not found"):
         chk.touched(cv)
         okh = okp = okerr = False
+        ro_cv = param_roles(cv, rec="AuthenticationExtensionsPrfValues", hash="bool")
+        P_REC, P_HASH = ("param", ro_cv["rec"] or 1), ("param", ro_cv["hash"] or 2)
         # the function's full table (private helpers expanded), values in normal form
         rows_cv = normal.rows(S, cv, N, expand=True, deep=True)
         is_hash = lambda y: is_call(y, "prf::make_salt") or is_call(y, "crypto::sha256") or is_call(y, "sha256") or is_call(y, "Digest::digest")
@@ -87,7 +95,7 @@ def run(chk):
         n_h = n_p = 0
         okh = okp = True
         for o in rows_cv:
-            hashed = [flow.bool_atom(t, l)[1] for t, l, f, w in o.conds if flow.bool_atom(t, l)[0] == ("param", 2)]
+            hashed = [flow.bool_atom(t, l)[1] for t, l, f, w in o.conds if flow.bool_atom(t, l)[0] == P_HASH]
             if not hashed:
                 continue
             v = N.inline(o.value)
@@ -95,7 +103,7 @@ def run(chk):
                 pv = dict(v[3]).get("0")
                 d = dict(pv[3]) if pv and pv[0] == "agg" else {}
                 first, second = d.get("first"), d.get("second")
-                second_given = any(flow.asserts_ok(t, l, lambda y: y == ("field", ("param", 1), "second")) for t, l, f, w in o.conds)
+                second_given = any(flow.asserts_ok(t, l, lambda y: y == ("field", P_REC, "second")) for t, l, f, w in o.conds)
                 if second_given and second == normal.NONE:
                     # a second input was supplied but no second salt is produced: the input was dropped instead of being
                     # converted or rejected
@@ -103,8 +111,8 @@ def run(chk):
                     okp = okp and hashed[0] is not False
                 if hashed[0] is True:
                     n_h += 1
-                    s_ok = second == normal.NONE or (second is not None and second[0] == "agg" and second[2] == "Some" and salt_of(dict(second[3])["0"], ("payload", ("field", ("param", 1), "second"))))
-                    okh = okh and first is not None and salt_of(first, ("field", ("param", 1), "first")) and s_ok
+                    s_ok = second == normal.NONE or (second is not None and second[0] == "agg" and second[2] == "Some" and salt_of(dict(second[3])["0"], ("payload", ("field", P_REC, "second"))))
+                    okh = okh and first is not None and salt_of(first, ("field", P_REC, "first")) and s_ok
                 else:
                     n_p += 1
                     raw = lambda t, fld: flow.is_payload_of(t, lambda y: is_conv(y) and has(y, lambda z: isinstance(z, tuple) and len(z) == 3 and z[0] == "field" and z[2] == fld))
@@ -171,7 +179,6 @@ def run(chk):
         fin = names.calls_to(hm, "Mac::finalize")
         chk.ob("R2 HMAC", "R2|hmac_sha256|instance", okt and bool(fin), where(hm), "MAC instance: %s" % inst[:140])
         chk.ob("R2 HMAC", "R2|hmac_sha256|key-and-data-roles", okk and okd, where(hm), "new_from_slice(key = param 1): %s ; update(data = param 2): %s" % (okk, okd))
-    from .common import hmac_functions, param_roles
     hfs = hmac_functions(p)
     is_hmac = lambda x: is_call(x, "crypto::hmac_sha256") or is_call(x, "hmac_sha256")
     if chk.require("R2 HMAC", "R2|hmac-functions", len(hfs) >= 1, "passkey_authenticator", "no function of the authenticator calls hmac_sha256"):
@@ -293,16 +300,26 @@ def run(chk):
     ss = fn(p, "hmac_secret::select_salts")
     if chk.require("R4 select_salts", "R4|select_salts", ss, "passkey_authenticator", "select_salts not found"):
         chk.touched(ss)
+        # the request arrives as the PRF inputs record, or as its two members separately (default eval, per-credential map)
         ro_ss = param_roles(ss, cid="[u8]", req="AuthenticatorPrfInputs")
-        P_ID, P_REQ = ("param", ro_ss["cid"] or 1), ("param", ro_ss["req"] or 2)
+        P_ID = ("param", ro_ss["cid"] or 1)
+        if ro_ss["req"] is not None:
+            EVAL, EBC = ("field", ("param", ro_ss["req"]), "eval"), ("field", ("param", ro_ss["req"]), "eval_by_credential")
+        else:
+            tys_ = [(i, (ss.j["locals"][i].get("ty") or "").replace(" ", "")) for i in range(1, ss.j.get("arg_count", 0) + 1)]
+            ev_ = [i for i, ty in tys_ if ty.startswith("core::option::Option<") and ty.rstrip(">").endswith("AuthenticatorPrfValues") and "HashMap" not in ty and "Map<" not in ty]
+            eb_ = [i for i, ty in tys_ if "AuthenticatorPrfValues" in ty and ("HashMap" in ty or "Map<" in ty)]
+            EVAL = ("param", ev_[0]) if len(ev_) == 1 else None
+            EBC = ("param", eb_[0]) if len(eb_) == 1 else None
+            ro_ss["req"] = (EVAL, EBC) if EVAL and EBC else None
         chk.require("R4 select_salts", "R4|select_salts|roles", None not in ro_ss.values(), where(ss), "parameters not identified by type (credential id bytes, PRF inputs): %s" % ro_ss)
         rows = normal.rows(S, ss, N, expand=False, deep=True)
         # the table in normal form: which stored entry feeds the salts, and under which presence tests
-        is_ebc_t = lambda y: y == ("field", P_REQ, "eval_by_credential")
-        # the matching entry: found by Iterator::find over the per-credential map, or yielded by next() of a loop over it
-        is_find = lambda x: (is_call(x, "Iterator::find") and has(x[2][0], is_ebc_t)) or (is_call(x, "Iterator::next") and has(flow.iterator_source(x[2][0]) or (), is_ebc_t))
-        is_eval = lambda x: x == ("field", P_REQ, "eval")
-        is_ebc = lambda x: x == ("field", P_REQ, "eval_by_credential")
+        is_ebc_t = lambda y: y == EBC
+        # the matching entry: found by Iterator::find / find_map over the per-credential map, or yielded by next() of a loop over it
+        is_find = lambda x: ((is_call(x, "Iterator::find") or is_call(x, "Iterator::find_map")) and has(x[2][0], is_ebc_t)) or (is_call(x, "Iterator::next") and has(flow.iterator_source(x[2][0]) or (), is_ebc_t))
+        is_eval = lambda x: x == EVAL
+        is_ebc = lambda x: x == EBC
         somes = [o for o in rows if o.variant[:1] == ("Some",)]
         nones = [o for o in rows if o.variant[:1] == ("None",)]
         per_cred = [o for o in somes if has(o.value, is_find)]
@@ -313,6 +330,13 @@ def run(chk):
             if fnd is not None and is_call(fnd, "Iterator::find"):
                 pred = closure_ret(p, fnd[2][1])
                 okp = pred is not None and has(pred, lambda x: is_call(x, "PartialEq::eq")) and has(pred, lambda x: x == P_ID)
+            elif fnd is not None and is_call(fnd, "Iterator::find_map"):
+                # the closure yields the entry's value exactly on the true edge of `key == credential id`
+                pred = closure_ret(p, fnd[2][1])
+                cs_ = normal.cases_deep(N.norm(pred)) if pred is not None else []
+                yes = [(cs, v) for cs, v in cs_ if isinstance(v, tuple) and v[:3] == ("agg", "core::option::Option", "Some")]
+                is_key_eq = lambda t, l: (flow.eq_test(t, l) or (None, None))[1] is True and any(has(y, lambda z: z == P_ID) for y in flow.eq_test(t, l)[0])
+                okp = bool(yes) and all(any(is_key_eq(t, l) for t, l in cs) for cs, v in yes) and all(v == normal.NONE for cs, v in cs_ if (cs, v) not in yes)
             else:
                 # loop form: the row is taken on the true edge of `credential id == key of the yielded entry`
                 okp = fnd is not None and any((flow.eq_test(t, l) or (None, None))[1] is True and P_ID in flow.eq_test(t, l)[0] and any(has(y, lambda z: z == fnd) for y in flow.eq_test(t, l)[0]) for t, l, f, w in o.conds)
@@ -338,6 +362,11 @@ def run(chk):
         ss_ = fn(p, "hmac_secret::select_salts")
         ai_ = (param_roles(ss_, cid="[u8]")["cid"] or 1) - 1 if ss_ is not None else 0
         ok = bool(cs) and ro_gp["cid"] is not None and flow.simplify_term(T.operand(cs[0][1]["args"][ai_], cs[0][0], "t")) == ("param", ro_gp["cid"])
+        if ok and ss_ is not None and param_roles(ss_, req="AuthenticatorPrfInputs")["req"] is None and isinstance(ro_ss.get("req"), tuple):
+            # the inputs record travels as its two members: both must be members of one and the same record, each in its place
+            a_ev = flow.simplify_term(T.operand(cs[0][1]["args"][ro_ss["req"][0][1] - 1], cs[0][0], "t"))
+            a_eb = flow.simplify_term(T.operand(cs[0][1]["args"][ro_ss["req"][1][1] - 1], cs[0][0], "t"))
+            ok = a_ev[0] == "field" and a_eb[0] == "field" and a_ev[2] == "eval" and a_eb[2] == "eval_by_credential" and a_ev[1] == a_eb[1]
         okc = False
         for nb in p.nested_of(ge):
             for bb, t in nb.calls():
@@ -359,11 +388,12 @@ def run(chk):
         rows = S.local_outcomes(mp)
         ok = True
         n_en = n_dis = n_none = 0
+        P_SEC = ("param", param_roles(mp, sec="StoredHmacSecret")["sec"] or 2)
         for o in rows:
             if o.variant[:2] == ("Ok", "Some"):
                 en = find(o.value, lambda x: isinstance(x, tuple) and len(x) == 4 and x[0] == "agg" and x[1].endswith("AuthenticatorPrfMakeOutputs"))
                 e = dict(en[3]).get("enabled") if en else None
-                has_creds = [l for t, l, f, w in o.conds if flow.is_discr(t, ("param", 2))]
+                has_creds = [l for t, l, f, w in o.conds if flow.is_discr(t, P_SEC)]
                 if e == ("const", 1):
                     n_en += 1
                     ok = ok and has_creds and has_creds[0] == ("in", "1")
@@ -390,7 +420,7 @@ def run(chk):
         for nb in p.nested_of(me):
             for bb, t in nb.calls():
                 if names.call_is(t, "Authenticator::make_prf"):
-                    v = flow.simplify_term(flow.Terms(p, nb).operand(t["args"][1], bb, "t"))
+                    v = flow.simplify_term(flow.Terms(p, nb).operand(t["args"][param_roles(mp, sec="StoredHmacSecret")["sec"] - 1 if mp is not None and param_roles(mp, sec="StoredHmacSecret")["sec"] else 1], bb, "t"))
                     given = v
                     # resolve captures up to make_extensions
                     cur, curb = v, nb
@@ -528,6 +558,7 @@ def run(chk):
         from . import quant
         F = quant.Formulas(N)
         oks = False
+        P_ALLOW = ("param", param_roles(gc, allow="PublicKeyCredentialDescriptor]")["allow"] or 1)
         undec_site = False
         polw = "no per-key predicate found"
         KEY = ("key",)
@@ -588,11 +619,11 @@ def run(chk):
                 kind = None
                 if f[0] == "atom" and isinstance(f[1], tuple) and len(f[1]) == 4 and f[1][0] == "call" and f[1][1].endswith("is_empty") and is_key(f[1][2][0]):
                     kind = "E"
-                elif f[0] == "present" and has(f[1], lambda x: x == ("param", 1)):
+                elif f[0] == "present" and has(f[1], lambda x: x == P_ALLOW):
                     kind = "A"
                 elif f[0] == "present" and has(f[1], lambda x: is_call(x, "TryFrom::try_from") and "Bytes" in x[1]):
                     kind = "D"   # the key decodes (base64url) — when the decoding and the checks share one loop
-                elif f[0] == "exists" and has(f[1], lambda x: x == ("param", 1)) and f[2][0] == "eq":
+                elif f[0] == "exists" and has(f[1], lambda x: x == P_ALLOW) and f[2][0] == "eq":
                     a, b = (tuple(f[2][1]) + (None, None))[:2]
                     ids = [x for x in (a, b) if isinstance(x, tuple) and len(x) == 3 and x[0] == "field" and x[2] == "id" and isinstance(x[1], tuple) and x[1][:1] == ("bound",)]
                     keys = [x for x in (a, b) if is_key(x)]
